@@ -29,6 +29,15 @@ mod verif_sched;
 static EXIT_CODE: AtomicI32 = AtomicI32::new(0);
 #[cfg(stylua_verif)]
 static EXIT_CODE: verif_sched::SAtomicI32 = verif_sched::SAtomicI32::new("EXIT_CODE", 0);
+/// Logs an error and records that the run has failed.
+/// The exit code must not depend on whether the message passes the log filter (e.g. `STYLUA_LOG=stylua=off`).
+macro_rules! error {
+    ($($arg:tt)*) => {{
+        EXIT_CODE.store(2, Ordering::SeqCst);
+        log::error!($($arg)*);
+    }};
+}
+
 #[cfg(not(stylua_verif))]
 static UNFORMATTED_FILE_COUNT: AtomicU32 = AtomicU32::new(0);
 #[cfg(stylua_verif)]
